@@ -754,6 +754,8 @@ class Gen:
             forms += ["if", "cset", "setfield"]
             if self.has("loops"):
                 forms += ["while", "for"]
+                if self.has("exprstmt") and self.has("list") and self.in_for == 0:
+                    forms += ["forset"]
             if self.has("ret") and self.cur_rt is not None:
                 forms += ["ret"]
             if self.has("list") and self.in_for == 0:
@@ -932,8 +934,30 @@ class Gen:
                     cond = binop("and", "bool", extra, cond) if r.random() < 0.6 else binop("and", "bool", cond, extra)
             # counter declaration + loop live in their own block
             return block([let(i, cty, ilit(cty, 0)), {"k": "while", "c": cond, "b": block(body)}])
+        if f == "forset":
+            # a loop over a list VARIABLE whose body gives that variable another list: the loop goes on over the list
+            # it started with (the expression after `in` is evaluated once)
+            lvars = [(n, t[1]) for (n, t) in self.all_vars() if isinstance(t, list) and t[0] == "list"
+                     and isinstance(t[1], str) and self.emit_ok(t[1]) and t[1] not in FLOAT_TYS and n not in self.protected]
+            if not lvars:
+                return self.stmt_emit(d)
+            lv, ety = r.choice(lvars)
+            x = self.fresh("x")
+            others = [m for (m, t) in lvars if m != lv and t == ety]
+            new = var(r.choice(others)) if others and r.random() < 0.4 else \
+                {"k": "list", "es": [self.expr(ety, 0, True) for _ in range(r.randint(1, 3))]}
+            body = [host("emit", ety, self.tag(), [var(x)]), {"k": "set", "p": [lv], "e": new}]
+            if r.random() < 0.5:
+                body.reverse()
+            if r.random() < 0.5:
+                body.append(host("emit", "u64", self.tag(), [{"k": "lcall", "m": "len", "r": var(lv), "args": []}]))
+            return {"k": "for", "n": x, "e": var(lv), "b": block(body)}
         if f == "for":
             ety = r.choice([t for t in self.scalar_tys() if t not in FLOAT_TYS] or ["i32"])
+            lvars = [(n, t[1]) for (n, t) in self.all_vars() if isinstance(t, list) and t[0] == "list"
+                     and isinstance(t[1], str) and self.emit_ok(t[1]) and t[1] not in FLOAT_TYS]
+            if lvars and r.random() < 0.7:
+                ety = r.choice(lvars)[1]       # prefer an element type for which a list variable exists
             cands = [n for (n, t) in self.all_vars() if t == ["list", ety]]
             x = self.fresh("x")
             if cands and r.random() < 0.3:
@@ -958,7 +982,7 @@ class Gen:
             body = self.stmts(r.randint(1, 2), d - 1)
             self.in_for -= 1
             self.pop()
-            if lv is not None and lv not in self.protected and self.has("exprstmt") and r.random() < 0.4:
+            if lv is not None and lv not in self.protected and self.has("exprstmt") and r.random() < 0.7:
                 # the body gives the iterated VARIABLE another list: the loop goes on over the list it started with
                 others = [m for m in cands if m != lv]
                 new = var(r.choice(others)) if others and r.random() < 0.5 else \
